@@ -10,8 +10,8 @@ import (
 
 func init() {
 	register(&propDef{
-		id:  "C16",
-		run: runC16,
+		id:          "C16",
+		run:         runC16,
 		explanation: "Static analysis of filter build/probe agreement and fail-open behaviour: (1) the internal-key filter wrappers pass the USER key both when adding and when probing, and the session wraps the configured filter and every alternative filter; (2) the bloom generator and the bloom probe use the same hash function, the same delta rotation, the same bit-position / byte-index / mask expressions and the same per-probe advance, the probe count is read from the byte the generator wrote, the filter's bit count is a multiple of 8 ≥ 64 on both sides, and a probe count above 30 answers 'maybe' (sibling comparison of normalised SSA expression signatures); (3) every key appended to a table is added to the filter before success is returned, every finished data block flushes the filter partitions, and Close finishes the filter block before the metaindex is written; (4) writer and reader agree on the partition index (offset / 2^baseLg vs offset >> baseLg) and on where baseLg is stored; (5) fail open: a filter-block probe answers 'absent' only as the policy's own answer or for an empty partition, out-of-range / inconsistent offsets answer 'maybe', Reader.find turns a filter miss into not-found only when filtering was requested and a filter exists, and a corrupted filter block disables filtering instead of failing the read. The no-false-negative law over all key sets (hash distribution) is NOT decided.",
 		notCovered:  "the hash's distribution; that changing policies never changes results at runtime; third-party filter policies",
 		assumptions: []string{"util.Hash is deterministic (shared by generator and probe)"},
@@ -21,7 +21,10 @@ func init() {
 func runC16(p *Prog, r *Report) {
 	if want("C16.1") {
 		r.Begin("C16.1", "E-SIB", "wrapper agreement: iFilterGenerator.Add and iFilter.Contains both hand internalKey(key).ukey() to the wrapped policy; session.setOptions wraps Filter and every AltFilters element", 4)
-		for _, spec := range []struct{ name, method string; argIdx int }{{"iFilterGenerator.Add", "Add", 0}, {"iFilter.Contains", "Contains", 1}} {
+		for _, spec := range []struct {
+			name, method string
+			argIdx       int
+		}{{"iFilterGenerator.Add", "Add", 0}, {"iFilter.Contains", "Contains", 1}} {
 			fn := resolveFn(p, r, "leveldb", spec.name)
 			if fn == nil {
 				continue
@@ -37,6 +40,24 @@ func runC16(p *Prog, r *Report) {
 			})
 			r.Site(1)
 			r.Check(okv, fnName(fn), "strips-trailer", spec.name+" passes the user key (trailer stripped) to the wrapped policy", "the wrapped policy does not receive internalKey(key).ukey(): build and probe would hash different bytes", p.Pos(fn.Pos()))
+			// the wrapper is a pure pass-through: every call reaches the wrapped policy (a wrapper that
+			// skips keys — e.g. "same user key as last time" across Generate() calls — leaves later
+			// filter partitions without the key), and it keeps no state of its own between calls
+			m := spec.method
+			ordOnSuccess(p, r, fn, "always-delegates", nil, func(in ssa.Instruction) bool {
+				c, ok := in.(*ssa.Call)
+				return ok && c.Call.IsInvoke() && c.Call.Method.Name() == m
+			}, "the wrapped policy's "+m)
+			r.Site(1)
+			stateful := ""
+			instrs(fn, func(_ *ssa.BasicBlock, _ int, in ssa.Instruction) {
+				if st, ok := in.(*ssa.Store); ok {
+					if t, f, _, ok := fieldOf(st.Addr); ok && (t == "leveldb.iFilterGenerator" || t == "leveldb.iFilter") {
+						stateful = f
+					}
+				}
+			})
+			r.Check(stateful == "", fnName(fn), "stateless-wrapper", spec.name+" keeps no state between calls (the table writer reuses one generator for all filter partitions)", "writes field "+stateful, p.Pos(fn.Pos()))
 		}
 		if fn := resolveFn(p, r, "leveldb", "iFilter.NewGenerator"); fn != nil {
 			okv := false
@@ -372,7 +393,10 @@ func ruleBloomAgreement(p *Prog, r *Report, rule string) {
 	})
 	r.Check(okStore, fnName(add), "hash-recorded", "Add records the key's hash for Generate", "keyHashes not appended", p.Pos(add.Pos()))
 	// nBits is a multiple of 8: generator nBits = nBytes*8 ; probe nBits = nBytes*8
-	mul8 := func(v ssa.Value) bool { b, ok := isBin(v, token.MUL); return ok && (mConstInt(8)(b.X) || mConstInt(8)(b.Y)) }
+	mul8 := func(v ssa.Value) bool {
+		b, ok := isBin(v, token.MUL)
+		return ok && (mConstInt(8)(b.X) || mConstInt(8)(b.Y))
+	}
 	r.Site(2)
 	r.Check(len(pick(gen, mul8)) >= 1 && len(pick(con, mul8)) >= 1, "filter.bloomFilterGenerator.Generate~filter.bloomFilter.Contains", "nbits-from-bytes", "both sides use nBits = nBytes*8", fmt.Sprintf("generator %v probe %v", pick(gen, mul8), pick(con, mul8)), p.Pos(gen.Pos()))
 	// k position: generator stores g.k at dest[nBytes]; probe reads filter[nBytes] with nBytes = len(filter)-1
